@@ -812,6 +812,17 @@ def install(world):
     tmeth("elem_type", t_none_guard("elem_type", Ty.is_ArrT, Ty.aelem), prop=True)
     tmeth("return_type", t_none_guard("return_type", Ty.is_FunT, lambda t: S.fun_ret(Ty.fid(t))), prop=True)
 
+    def t_as_smtlib(ex, a, kw):
+        h = W.config.get("ty_as_smtlib")
+        if h is None:
+            return Opaque("as_smtlib")
+        fs = a[1] if len(a) > 1 else kw.get("funstyle", True)
+        return h(ex, a[0], bool(fs))
+    tmeth("as_smtlib", t_as_smtlib)
+
+    # the declaration object of a custom sort: several instances of a parametric sort share one
+    tmeth("decl", t_none_guard("decl", Ty.is_CustomT, S.ty_decl), prop=True)
+
     def t_arity(ex, a, kw):
         t = a[0]
         ex.assume(S.cust_arity(Ty.cid(t)) >= 0)
